@@ -2,7 +2,7 @@
    The decision takes only the fingerprint and the SHA-256 of the leaf certificate (an input here: `digest`);
    chain validity, names and dates are not inputs of `verify` at all. *)
 From Coq Require Import List ZArith Bool.
-Require Import MTX.Model.C41_Tls MTX.Proofs.C41_Tls.
+Require Import MTX.Model.C41_Tls MTX.Proofs.C41_Tls MTX.Model.C41_Sites MTX.Proofs.C41_Sites.
 Import ListNotations.
 Local Open Scope Z_scope.
 
@@ -23,6 +23,69 @@ Print Assumptions C41_exactly_pinned.
 Theorem C41_length : forall fp digest, verify fp digest = true -> length fp = (2 * length digest)%nat.
 Proof. exact verify_length. Qed.
 Print Assumptions C41_length.
+
+(* ---- the road from MakeConfig to the handshake (Model/C41_Sites.v) ------------------------------------------------
+   every user of MakeConfig (packetdumper.DialTLSContext.Do, the sources' and forwarders' clients, net/http, the MoQ
+   dialers) is a sequence of field writes on a private copy of the configuration; crypto/tls then decides from
+   InsecureSkipVerify, ServerName + ordinary verification (`ca_ok`, any function) and VerifyConnection. *)
+
+(* for ANY consumer made of pin-neutral writes, of any length: the callback alone decides *)
+Theorem C41_neutral_consumer_decides : forall ops fp digest ca_ok,
+  fp <> [] -> Forall (fun o => neutral o = true) ops ->
+  tls_accepts (run ops (start (make_config fp))) digest ca_ok = verify fp digest.
+Proof. exact neutral_consumer_decides. Qed.
+Print Assumptions C41_neutral_consumer_decides.
+
+(* every modelled call site is such a consumer ... *)
+Theorem C41_sites_neutral : forall s was_nil host, Forall (fun o => neutral o = true) (site_ops s was_nil host).
+Proof. exact site_ops_neutral. Qed.
+Print Assumptions C41_sites_neutral.
+
+(* ... so at every call site, for every URL host, every digest and every outcome of ordinary verification, the
+   connection succeeds iff the fingerprint is the hex SHA-256 of the leaf up to ASCII case *)
+Theorem C41_sites_accept_iff : forall s fp host digest ca_ok, fp <> [] -> Forall is_byte digest ->
+  (connect s fp host digest ca_ok = true <-> fold_eq fp (hex_encode digest)).
+Proof. exact connect_iff. Qed.
+Print Assumptions C41_sites_accept_iff.
+
+(* regardless of the chain's validity (and of the name it is checked for) *)
+Theorem C41_sites_chain_irrelevant : forall s fp host digest ca1 ca2 host2, fp <> [] ->
+  connect s fp host digest ca1 = connect s fp host2 digest ca2.
+Proof. exact connect_chain_irrelevant. Qed.
+Print Assumptions C41_sites_chain_irrelevant.
+
+(* exactly the pinned certificate, across call sites *)
+Theorem C41_sites_exactly_pinned : forall s1 s2 fp h1 h2 d1 d2 ca1 ca2,
+  fp <> [] -> Forall is_byte d1 -> Forall is_byte d2 ->
+  connect s1 fp h1 d1 ca1 = true -> connect s2 fp h2 d2 ca2 = true -> d1 = d2.
+Proof. exact connect_exactly_pinned. Qed.
+Print Assumptions C41_sites_exactly_pinned.
+
+(* without a fingerprint no call site weakens anything: ordinary verification for the URL host decides *)
+Theorem C41_sites_unpinned_ordinary : forall s host digest ca_ok, host <> [] ->
+  connect s [] host digest ca_ok = ca_ok host.
+Proof. exact connect_unpinned. Qed.
+Print Assumptions C41_sites_unpinned_ordinary.
+
+(* the neutrality hypothesis is not decoration: a consumer that replaces a configuration whose ServerName is empty
+   (MakeConfig's always is) accepts a certificate that is not the pinned one and rejects the pinned one *)
+Theorem C41_replacing_consumer_refuted :
+  exists fp host d_pinned d_other ca_ok,
+    fp <> [] /\ verify fp d_pinned = true /\ verify fp d_other = false /\
+    tls_accepts (run (pd_do_merged_ops host) (start (make_config fp))) d_other ca_ok = true /\
+    tls_accepts (run (pd_do_merged_ops host) (start (make_config fp))) d_pinned (fun _ => false) = false.
+Proof. exact merged_consumer_refuted. Qed.
+Print Assumptions C41_replacing_consumer_refuted.
+
+Example C41_sites_example :
+  connect (Src RTSP true) [65; 98] [104] [171] (fun _ => false) = true /\
+  connect (Src HLS true) [65; 98] [104] [172] (fun _ => true) = false /\
+  connect MoqQuic [97; 66] [104] [171] (fun _ => false) = true /\
+  connect AuthJWKS [] [104] [171] (fun _ => false) = false /\
+  connect FwdWHIP [] [104] [172] (fun n => bytes_eqb n [104]) = true /\
+  server_name (site_cfg PdDo [97] [104]) = [104] /\ key_log (site_cfg PdDo [97] [104]) = true /\
+  server_name (site_cfg MoqWT [97] [104]) = [] /\ server_name (site_cfg MoqWT [] [104]) = [104].
+Proof. vm_compute. repeat split. Qed.
 
 Example C41_example :
   verify [65; 98; 48; 70] [171; 15] = true /\ verify [97; 98; 48; 102] [171; 15] = true /\
